@@ -16,7 +16,7 @@ class Inst(object):
         self.k = k
         self.ip = ev["ip"]
         self.port = ev["port"]
-        self.addr = proto.addr_value(ev["ip"])
+        self.addr = proto.announced_value(ev["ip"])      # octets may carry leading zeros; "ANY" for a text that denotes no address
         self.serial = None
         self.host = None
         self.hostres = False
@@ -140,7 +140,7 @@ class Monitor(object):
             if actual is not None:
                 rx = "^" + re.escape(want).replace(re.escape(A), "([0-9a-fA-F:.]+)") + "$"
                 m = re.match(rx, actual, re.S)
-                if m and all(proto.addr_value(g) == i.addr for g in m.groups()) and len(set(m.groups())) == 1:
+                if m and all((proto.addr_value(g) == i.addr or (i.addr == "ANY" and proto.addr_value(g) is not None)) for g in m.groups()) and len(set(m.groups())) == 1:
                     return actual
             want = want.replace(A, i.ip)
         return want
@@ -377,7 +377,7 @@ class Monitor(object):
                 sig="names-closed-client:" + c["cmd"] + (":" + why if why else ":never"))
             return
         # C09: address and port
-        if proto.addr_value(c["addr"]) != i.addr or c["port"] != i.port:
+        if (proto.addr_value(c["addr"]) != i.addr and not (i.addr == "ANY" and proto.addr_value(c["addr"]) is not None)) or c["port"] != i.port:
             self.v("C09", "address", "line %r carries address/port %s %d, client %d was announced as %s %d" % (ln, c["addr"], c["port"], cid, i.ip, i.port))
         i.seen_addr = c["addr"]
         cmd = c["cmd"]
